@@ -13,8 +13,12 @@ PID = "C09"
 RULE = (
     "cases: (positive matrix, objectives, b, rank_by) for SIMUS; 2..30 alternatives with at least 40 % of the cases above ten, "
     "2..5 criteria with at least two maximise criteria (all-max and mixed objective vectors, 0..n-2 minimise criteria), dyadic "
-    "(k/8) and arbitrary doubles with per-criterion magnitudes 1e-1..1e3, rank_by in {1, 2}, b in {None, partially given with "
-    "None entries, fully given} drawn around the column maxima / minima. Per case: (i) every PuLP problem object "
+    "(k/8) and arbitrary doubles with per-criterion magnitudes 1e-1..1e3 (float64 decision matrix) and whole numbers 1..4/9/20/100/1000 "
+    "handed over as an int64 decision matrix (a quarter of the cases), rank_by in {1, 2}, b in {None, partially given with "
+    "None entries, fully given} drawn around the column maxima / minima; for int64 matrices the supplied bounds are NON-INTEGER "
+    "(k+1/2, k+1/4, k+1/8, k+u), mostly strictly between the criterion's min and max, and re-drawn until a supplied bound has a "
+    "non-zero dual value in some stage (binding); at least 20 % of the cases are int64 + partially given b + fractional binding "
+    "bound. b reaches SIMUS and the model exactly as the user wrote it (None / python floats; rationals of those floats). Per case: (i) every PuLP problem object "
     "(sense, objective, each constraint's coefficients / sense / rhs, variable bounds) against the Lean model's stageLP, exactly; "
     "(ii) lp_values[i] against the value of the variable named x{i} read from the solved problem; (iii) every stage solution "
     "checked for feasibility (exact rational arithmetic) and optimality through the PROVED certificate checker (Lean certCheck, "
@@ -48,36 +52,100 @@ F = C.F
 def _value(rng, family, scale):
     if family == "dyadic":
         return rng.randint(1, 128) / 8.0
+    if family == "int":
+        # whole numbers, carried as python ints; observe builds an int64 decision matrix from them
+        return rng.randint(1, max(2, int(round(scale))))
     return scale * rng.uniform(0.1, 1.0)
 
 
-def one_case(rng, m=None, n=None):
+_FRACS = [0.5, 0.25, 0.75, 0.125, 0.5, 0.5]
+
+
+def _int_bound(rng, col, obj):
+    """a NON-INTEGER bound for a whole-number criterion: mostly strictly inside (min, max) of the column, so that it is
+    tighter than the automatic bound and can be binding; sometimes outside (scaled like the float families)"""
+    lo, hi = min(col), max(col)
+    frac = rng.choice(_FRACS + [round(rng.uniform(0.05, 0.95), 3)])
+    if lo < hi and rng.random() < 0.8:
+        return float(rng.randint(lo, hi - 1) + frac)
+    if obj == 1:
+        return float(int(hi * rng.choice([0.5, 0.75, 1.0, 1.25, 2.0])) + frac)
+    return float(int(lo * rng.choice([0.25, 0.5, 1.0, 1.5])) + frac)
+
+
+def _draw_b(rng, mat, objs, family, bmode):
+    m, n = len(mat), len(objs)
+    if bmode == "none":
+        return None
+    b = []
+    for j in range(n):
+        col = [mat[i][j] for i in range(m)]
+        if family == "int":
+            v = _int_bound(rng, col, objs[j])
+        elif objs[j] == 1:
+            v = max(col) * rng.choice([0.5, 0.75, 1.0, 1.25, 2.0, rng.uniform(0.5, 2.0)])
+        else:
+            v = min(col) * rng.choice([0.25, 0.5, 1.0, 1.5, rng.uniform(0.25, 1.5)])
+        b.append(float(v))
+    if bmode == "partial":
+        k = rng.randint(1, n - 1)
+        for j in rng.sample(range(n), k):
+            b[j] = None
+    return b
+
+
+def binding_given(case):
+    """(criterion, stage) pairs in which a user-SPECIFIED bound carries a non-zero dual value in the stage's program
+    (second solver): the optimum of that stage depends on the exact value of the supplied bound.  Empty when some
+    stage program is infeasible / unbounded (outside the quantifier)."""
+    if case["b"] is None:
+        return []
+    n = len(case["objectives"])
+    out = []
+    for z in range(n):
+        lp = oracle_lp(case, z)
+        h = highs(lp)
+        if h["status"] != 0:
+            return []
+        for con, y in zip(lp["constraints"], h["y"]):
+            if case["b"][con["crit"]] is not None and abs(y) > 1e-9:
+                out.append((con["crit"], z))
+    return out
+
+
+def one_case(rng, m=None, n=None, family=None, bmode=None, binding=None):
     if m is None:
         m = rng.randint(11, 30) if rng.random() < 0.5 else rng.randint(2, 10)
     if n is None:
         n = rng.randint(2, 5)
-    family = rng.choice(["dyadic", "float", "float"])
+    if family is None:
+        family = rng.choice(["dyadic", "float", "float", "int"])
+    if bmode is None:
+        bmode = rng.choice(["none", "partial", "partial", "full"])
+    if binding is None:
+        # whole-number matrices: the supplied (fractional) bounds are re-drawn until one of them is binding in some stage
+        binding = family == "int" and bmode != "none"
     n_min = rng.randrange(0, n - 1)
     objs = [-1] * n_min + [1] * (n - n_min)
     rng.shuffle(objs)
-    scales = [10 ** rng.uniform(-1, 3) for _ in range(n)]
+    if family == "int":
+        scales = [rng.choice([4, 9, 20, 100, 1000]) for _ in range(n)]
+    else:
+        scales = [10 ** rng.uniform(-1, 3) for _ in range(n)]
     mat = [[_value(rng, family, scales[j]) for j in range(n)] for _ in range(m)]
-    bmode = rng.choice(["none", "partial", "partial", "full"])
-    b = None
-    if bmode != "none":
-        b = []
-        for j in range(n):
-            col = [mat[i][j] for i in range(m)]
-            if objs[j] == 1:
-                v = max(col) * rng.choice([0.5, 0.75, 1.0, 1.25, 2.0, rng.uniform(0.5, 2.0)])
-            else:
-                v = min(col) * rng.choice([0.25, 0.5, 1.0, 1.5, rng.uniform(0.25, 1.5)])
-            b.append(float(v))
-        if bmode == "partial":
-            k = rng.randint(1, n - 1)
-            for j in rng.sample(range(n), k):
-                b[j] = None
-    return {"kind": "simus", "matrix": mat, "objectives": objs, "b": b, "rank_by": rng.choice([1, 2]), "family": family, "bmode": bmode}
+    case = {"kind": "simus", "matrix": mat, "objectives": objs, "b": None, "rank_by": rng.choice([1, 2]), "family": family, "bmode": bmode,
+            "dtype": "int64" if family == "int" else "float64"}
+    for _ in range(12 if binding else 1):
+        case["b"] = _draw_b(rng, mat, objs, family, bmode)
+        if not binding or binding_given(case):
+            break
+    return case
+
+
+def _is_int_partial(c):
+    """whole-number (int64) matrix + user b with None entries and a non-integer bound on a specified entry"""
+    return (c.get("dtype") == "int64" and c["b"] is not None and any(v is None for v in c["b"])
+            and any(v is not None and v != int(v) for v in c["b"]))
 
 
 def gen(ctx):
@@ -87,6 +155,15 @@ def gen(ctx):
     # the quota of the property's quantifier: at least 40 % above ten alternatives
     while sum(1 for c in cases if len(c["matrix"]) > 10) < 0.4 * len(cases):
         cases[rng.randrange(len(cases))] = one_case(rng, m=rng.randint(11, 30))
+    # quota: at least 20 % int64 matrices with a partially given b whose specified entries are non-integer and binding
+    # (replacements keep the replaced case's number of alternatives, so the quota above is preserved)
+    tries = 0
+    while sum(1 for c in cases if _is_int_partial(c) and binding_given(c)) < 0.2 * len(cases) and tries < 10 * N:
+        tries += 1
+        i = rng.randrange(len(cases))
+        if _is_int_partial(cases[i]):
+            continue
+        cases[i] = one_case(rng, m=len(cases[i]["matrix"]), family="int", bmode="partial")
     return cases
 
 
@@ -182,11 +259,12 @@ def observe(case):
     import skcriteria as skc
 
     with M.quiet():
-        A = np.array(case["matrix"], dtype=float)
+        # whole-number cases are handed over as an int64 decision matrix (every criterion int64), the others as float64
+        A = np.array(case["matrix"], dtype=np.int64 if case.get("dtype") == "int64" else float)
         m, n = A.shape
         dm = skc.mkdm(A, list(case["objectives"]))
         hints = [highs(oracle_lp(case, z)) for z in range(n)]
-        o = {"hints": hints}
+        o = {"hints": hints, "dm_dtypes": sorted(set(str(t) for t in dm.dtypes))}
         try:
             res = SIMUS(rank_by=case["rank_by"]).evaluate(dm, b=case["b"])
         except Exception as e:
@@ -490,7 +568,13 @@ def nontrivial(case, obs):
 def tags(case, obs):
     m, n = len(case["matrix"]), len(case["objectives"])
     t = ["alts:" + (">10" if m > 10 else "<=10"), "crits:%d" % n, "rank_by:%d" % case["rank_by"], "b:" + case.get("bmode", "?"),
-         "family:" + case.get("family", "?"), "objs:" + ("all-max" if all(x == 1 for x in case["objectives"]) else "mixed")]
+         "family:" + case.get("family", "?"), "objs:" + ("all-max" if all(x == 1 for x in case["objectives"]) else "mixed"),
+         "dm-dtype:" + "/".join(obs.get("dm_dtypes", ["?"]))]
+    if _is_int_partial(case):
+        t.append("int64+partial-b+fractional-bound")
+        if _in_domain(obs) and any(case["b"][con["crit"]] is not None and case["b"][con["crit"]] != int(case["b"][con["crit"]]) and abs(y) > 1e-9
+                                   for z in range(n) for con, y in zip(oracle_lp(case, z)["constraints"], obs["hints"][z]["y"])):
+            t.append("int64+partial-b+fractional-bound:binding")
     if "err" in obs:
         t.append("skipped:raised-" + obs["err"])
     elif not _all_optimal(obs):
